@@ -30,7 +30,7 @@ CoreA == <<
     O("u8", 0), O("u8", 128), O("u8", 255),
     O("word", W(0)), O("word", W(128)), O("word", W(16384)), O("word", WordMax),
     O("int", I(0)), O("int", I(1)), O("int", I(-1)), O("int", I(-65)), O("int", IntMax), O("int", IntMin),
-    O("char", 97), O("char", 955), O("char", 1114111),
+    O("char", 0), O("char", 97), O("char", 955), O("char", 55295), O("char", 57344), O("char", 1114111),
     O("bytes", <<>>), O("bytes", <<171>>), O("bytes", Pat(3, 254, 1)),
     O("utf8", <<>>), O("utf8", <<955, 8594, 119070>>),
     O("string", <<97, 955>>),
@@ -43,7 +43,7 @@ CoreB == <<
 Core == CoreA \o CoreB
 
 LongA == << O("bytes", Pat(255, 7, 3)), O("bytes", Pat(256, 0, 1)),
-            O("utf8", [i \in 1..86 |-> 8364]) >>          \* 258 bytes of UTF-8
+            O("utf8", <<97>> \o [i \in 1..86 |-> 8364]) >> \* 259 bytes of UTF-8; the 85th euro sign straddles the 255-byte block boundary
 LongB == << O("bytes", Pat(254, 1, 1)), O("bytes", Pat(511, 250, 7)), L("bytes", <<Pat(255, 9, 1), <<7>>>>) >>
 VeryLong == << O("bytes", Pat(510, 3, 5)), O("bytes", Pat(765, 1, 1)), O("bytes", Pat(1000, 5, 11)),
                O("utf8", [i \in 1..255 |-> 233]) >>
